@@ -248,7 +248,14 @@ def get_input_data(world: World, sim: SimRunner) -> InputData:
             attrs_old,
         ),
         input_data,
-        sim.persistent_inputs,
+        # The three levels of dicts controlled by mosaik are copied:
+        # otherwise the dicts of persistent_inputs themselves end up in
+        # input_data, and the non-persistent values merged in below
+        # would be remembered (and repeated in every later step).
+        {
+            eid: {attr: dict(vals) for attr, vals in attrs.items()}
+            for eid, attrs in sim.persistent_inputs.items()
+        },
     )
     # Merge in pushed inputs from the timed input buffer
     input_data = sim.timed_input_buffer.get_input(input_data, sim.current_step.time)
